@@ -6,6 +6,7 @@ import (
 	"fmt"
 	"go/token"
 	"go/types"
+	"regexp"
 	"sort"
 	"strings"
 
@@ -124,6 +125,7 @@ func checkC18(c *Ctx) {
 	st := bidx(c, "B-IDX", scope, exempt)
 	c.Notes = append(c.Notes, fmt.Sprintf("B-IDX: %d sites, %d compiler, %d LinBounds, %d unproven", st.sites, st.compiler, st.lin, st.unproved))
 	c18Panics(c, scope)
+	aeadNoncePre(c, "B-PRE-aead", scope)
 	c18Nil(c, scope)
 	c18Pre(c, scope)
 	c18Div(c, scope)
@@ -890,4 +892,51 @@ func uncheckedAssertDeref(f *ssa.Function, x *ssa.TypeAssert) ssa.Instruction {
 		return bad[0]
 	}
 	return nil
+}
+
+// aeadNoncePre: cipher.AEAD.Open and Seal PANIC when the nonce does not have NonceSize() bytes. Where the nonce comes
+// from decoded input, a dominating length test must make the call unreachable: ASSUME `len(nonce) != <anything>` is
+// true for the nonce expression of the call; the call must then be unreachable. (A nonce that is a fixed-size local
+// array or is produced by make(NonceSize()) is not a decoded value and is skipped.)
+func aeadNoncePre(c *Ctx, rule string, scope []*ssa.Function) {
+	n := 0
+	for _, f := range scope {
+		for _, name := range []string{"Open", "Seal"} {
+			for _, call := range invokesOf(f, name) {
+				if len(call.Call.Args) != 4 {
+					continue
+				}
+				nonce := call.Call.Args[1]
+				if lenBaseIsFresh(nonce) {
+					continue
+				}
+				n++
+				ci := newCondIndex(f, allParamNames(f))
+				ns := ci.be.plain(nonce, call).String()
+				reachable := true
+				ci.withAssumptions([]assumption{{`re:ne\(len\(` + regexp.QuoteMeta(ns) + `\),.+\)`, true}}, func() {
+					reachable = reach([]*ssa.BasicBlock{f.Blocks[0]}, deadEdges(f))[call.Block()]
+				})
+				c.Check(!reachable, rule, fname(f), fmt.Sprintf("AEAD %s is only reached with a nonce of NonceSize() bytes", name), "", "assuming the decoded nonce "+ns+" has another length than the one it is compared with, the AEAD call is still reached: crypto/cipher panics (\"incorrect nonce length\") on attacker-chosen parameters", call.Pos())
+			}
+		}
+	}
+	if n == 0 {
+		c.Notes = append(c.Notes, rule+": no AEAD call with a decoded nonce in scope")
+	}
+}
+
+// lenBaseIsFresh: the slice is cut from a local fixed-size array or a make
+func lenBaseIsFresh(v ssa.Value) bool {
+	for i := 0; i < 6; i++ {
+		switch x := v.(type) {
+		case *ssa.Slice:
+			v = x.X
+		case *ssa.MakeSlice, *ssa.Alloc:
+			return true
+		default:
+			return false
+		}
+	}
+	return false
 }
